@@ -69,7 +69,7 @@ for u in C08.READER_UNITS:
     if 'ReadBondedAtom' in u.name:
         UNITS.append(u)
 for u in C02.UNITS:
-    if 'AssignDescriptor' in u.name or 'AssignCenter' in u.name:
+    if 'AssignDescriptor' in u.name or 'AssignCenter' in u.name or 'aromatization' in u.name:
         u.world_factory = C02.world
         UNITS.append(u)
 STANDINS = [standins.c04_mixtures]
